@@ -9,7 +9,8 @@ Inductive c21_in :=
 | IHtmlUn (v : sval)                       (* xhtml_unescape v *)
 | IUrl (v : sval) (plus : bool)            (* e = url_escape v plus ; url_unescape e 'utf-8' plus ; url_unescape e None plus *)
 | IUrlUn (v : sval) (enc : uenc) (plus : bool)
-| IJson (v : jv)                           (* json_encode v *)
+| IJson (v : jv)                           (* e = json_encode v ; json_decode e *)
+| IJsonDec (s : list N)                    (* json_decode s, s a str *)
 | IUtf8 (v : pyval)                        (* r = utf8 v ; to_unicode r *)
 | IToUni (v : pyval)                       (* r = to_unicode v ; utf8 r *)
 | IRecUni (v : pyval)                      (* recursive_unicode v *)
@@ -49,6 +50,50 @@ Fixpoint opy (v : pyval) : obs :=
                        end) l)]
   end.
 
+Fixpoint ojv (v : jv) : obs :=
+  match v with
+  | JNull => ONone
+  | JBool b => OBool b
+  | JInt z => OInt z
+  | JStr s => ostr s
+  | JArr l => OList [OTag "list"; OList (map ojv l)]
+  | JObj l =>
+      OList [OTag "dict";
+             OList ((fix go (l : list (list N * jv)) : list obs :=
+                       match l with
+                       | [] => []
+                       | (k, x) :: l' => OList [OBytes k; ojv x] :: go l'
+                       end) l)]
+  end.
+Definition ojres (r : jres) : obs :=
+  match r with
+  | JOk v => ojv v
+  | JErr => OTag "ValueError"
+  | JOutside => OTag "OutsideModel"
+  | JFuel => OTag "OutOfFuel"
+  end.
+
+(* JSON values for which the decode round trip is claimed: strings and keys hold
+   Unicode scalar values (no surrogates), keys of an object are distinct *)
+Fixpoint nodupb (l : list (list N)) : bool :=
+  match l with
+  | [] => true
+  | k :: t => negb (existsb (list_N_eqb k) t) && nodupb t
+  end.
+Fixpoint jv_okb (v : jv) : bool :=
+  match v with
+  | JStr s => forallb is_scalar s
+  | JArr l => forallb jv_okb l
+  | JObj l =>
+      nodupb (map fst l) &&
+      (fix go (l : list (list N * jv)) : bool :=
+         match l with
+         | [] => true
+         | (k, x) :: l' => forallb is_scalar k && jv_okb x && go l'
+         end) l
+  | _ => true
+  end.
+
 Definition oqs (d : list (list N * list (list N))) : obs :=
   OList (map (fun kv => OList [OBytes (fst kv); OList (map OBytes (snd kv))]) d).
 
@@ -68,7 +113,8 @@ Definition run_case (i : c21_in) : obs :=
       | Err x => OList [err_tag x]
       end
   | IUrlUn v enc plus => ores osval (url_unescape v enc plus)
-  | IJson v => ostr (json_encode v)
+  | IJson v => OList [ostr (json_encode v); ojres (json_loads (json_encode v))]
+  | IJsonDec s => ojres (json_loads s)
   | IUtf8 v =>
       match py_utf8 v with
       | Ok r => OList [opy r; ores opy (py_to_unicode r)]
@@ -142,7 +188,11 @@ Definition check_case (i : c21_in) (o : obs) : bool :=
       | _, _ => false
       end
   | IJson v =>
-      match o with OList [OTag _; OBytes e] => no_lt_slash e | _ => false end
+      match o with
+      | OList [OList [OTag _; OBytes e]; d] =>
+          no_lt_slash e && (if jv_okb v then obs_eqb d (ojv v) else true)
+      | _ => false
+      end
   | IUtf8 v =>
       match v, o with
       | PStr s, OList [r; u] => obs_eqb u (opy (PStr s))      (* to_unicode (utf8 s) = s *)
